@@ -109,6 +109,9 @@ static inline double *MapFM_at(MapFM *m, Bitset *k)
  * the empty map behind `out`) */
 #define remove_copy_if(b_, e_, ins_, pred_) ({ MapFM *_src = (b_).m; MapFM *_dst = (ins_).m; \
   if (_src->has && !pred_((PairFM){ g_B, _src->val })) { _dst->has = 1; _dst->val = _src->val; REACH("kept"); } (void)0; })
+/* twins for the other spelling of an increment (`++it` for `it++` and vice versa): same effect.  X_inc yields the iterator after the step
+ * (exact); X_postinc made from X_inc is void, so a use of its value does not compile (UNDECIDED) instead of being modelled wrongly */
+#define MonoIt_inc(it_) (MonoIt_postinc(it_), (it_))      /* pre-increment: the iterator itself, after the step */
 //@function bool Pomerol::__is_zero<double>(std::pair<boost::dynamic_bitset<unsigned long, std::allocator<unsigned long> >, double>) as __is_zero
 //@end
 
